@@ -677,9 +677,16 @@ func oracleC18Root(p *Pair, env *Env, a [][]byte) *Failure {
 	_ = t.write(sb)
 	_ = os.MkdirAll(filepath.Join(sb, start), 0o755)
 	// absolute -d, relative -d from the sandbox, and no -d with that working directory
-	for _, mode := range []string{"abs", "rel", "cwd", "abs-slash", "abs-dotdot", "rel-slash"} {
+	for _, mode := range []string{"abs", "rel", "cwd", "abs-slash", "abs-dotdot", "rel-slash", "dot-from-start", "abs-from-start", "sibling-name-from-start"} {
 		var c cliResult
 		switch mode {
+		case "dot-from-start":
+			// started inside the directory and pointed at it: still the nearest ancestor-or-self with regex-assembly
+			c = runCLI(env, filepath.Join(sb, start), nil, "-l", "disabled", "-d", ".", "regex", "generate", "942100")
+		case "abs-from-start":
+			c = runCLI(env, filepath.Join(sb, start), nil, "-l", "disabled", "-d", filepath.Join(sb, start), "regex", "generate", "942100")
+		case "sibling-name-from-start":
+			c = runCLI(env, filepath.Join(sb, start), nil, "-l", "disabled", "-d", "../"+filepath.Base(start), "regex", "generate", "942100")
 		case "abs-slash":
 			c = runCLI(env, sb, nil, "-l", "disabled", "-d", filepath.Join(sb, start)+"/", "regex", "generate", "942100")
 		case "abs-dotdot":
